@@ -31,12 +31,14 @@ const SM4_MODES: [&str; 4] = ["cbc", "cfb", "ofb", "ctr"];
 fn n_targets() -> usize {
     1 + 4 + 1 + 6 + 5 + 1 + 2 + 4 + 4 + 1 + 1 + 1 + 1
 }
-const C20_PAR: usize = 120;
-const SPECIALS: usize = 3 + crate::gen_c19::N_SEMANTIC + 1 + 1 + C20_PAR; // + SM9 identity-length sweep + long history + two-caller runs
-const SOAK: usize = SPECIALS - 1 - C20_PAR;
+fn c20_par(t: Tier) -> usize {
+    t.pick(120, 1200)
+}
+const SPECIALS: usize = 3 + crate::gen_c19::N_SEMANTIC + 1 + 1; // + SM9 identity-length sweep + long history (+ two-caller runs, by tier)
+const SOAK: usize = SPECIALS - 1;
 
 pub fn isolated_c20(t: Tier, i: usize) -> bool {
-    i >= runs_c20(t) - C20_PAR && i % 2 == 0
+    i >= runs_c20(t) - c20_par(t) && i % 2 == 0
 }
 const ID_SWEEP: usize = 3 + crate::gen_c19::N_SEMANTIC; // kdf, compute_za, termination, well-formed-but-odd documents
 
@@ -45,7 +47,7 @@ fn samples(t: Tier) -> usize {
 }
 
 pub fn runs_c20(t: Tier) -> usize {
-    n_targets() * CHUNKS * samples(t) + SPECIALS
+    n_targets() * CHUNKS * samples(t) + SPECIALS + c20_par(t)
 }
 
 /// Build target `ti` in world `w` (set-up ops are executed; they are part of the base schedule).
